@@ -55,14 +55,14 @@ type GenResult struct {
 	AstErr  string
 	DepPb   map[string]string // Go package of a dependency file -> protoc-gen-gogo's output for it
 	// gogo
-	PbName     string
-	PbContent  string
-	GogoErr    string
-	CompileErr string
+	PbName       string
+	PbContent    string
+	GogoErr      string
+	CompileErr   string
 	RootsOrdered []string // roots in the order of their GenSchema functions
-	Dir        string // package dir (relative to module) of the struct package
-	TfDir      string // package dir of the terraform package
-	Roots      []string
+	Dir          string   // package dir (relative to module) of the struct package
+	TfDir        string   // package dir of the terraform package
+	Roots        []string
 }
 
 // Env holds paths of one prepared run.
